@@ -1338,13 +1338,13 @@ PROPS = {
             "assumptions": ["TLC and the TLA+ P-spec P_CMSHeap judge every executed call", "E (largest sketch overestimate) is read from the embedded sketch through a read-only hook"]},
     "C18": {"run": lambda ctx: run_rs(ctx, False), "level": "model_checking",
             "rule": "E1: every outcome of every draw for k in 1..3 up to n = 4k+4 (gaps 0..3); E2: every transition replayed through a scripted RNG; "
-                    "E3: k in {1,2,3,10,64,100}, n to 10^5 with pseudo-random, all-zero, all-one and alternating raw RNG words; non-trivial = tagged (replaces / keeps / switch accepts / first gap skips / gap accepts / gap skips)",
+                    "E3: k in {1,2,3,10,64,100}, n to 10^5 with pseudo-random, all-zero, all-one and alternating raw RNG words, Extend::extend steps (exact, over-estimating and absent size hints) during fill-up and after clears; non-trivial = tagged (replaces / keeps / switch accepts / first gap skips / gap accepts / gap skips)",
             "assumptions": ["TLC and the TLA+ P-spec P_Reservoir judge every executed call", "rand 0.8 sampling algorithms (self-tested at start-up) for scripted draws"]},
     "C05": {"run": lambda ctx: run_rs(ctx, True), "level": "model_checking",
             "level_text_extra": "exact for n <= 4k+1, k in {1,2} (k = 3 in the thorough tier) when the code consumes its generator as the mechanism spec says; gap phase bound by mechanism (deterministic gap clause) and, independently of the call pattern, by a measured 6-sigma clause over seeded runs",
             "rule": "exact inclusion probabilities by path counting: on the spec (MC_ReservoirDist) and on the table of draws recorded from the real sampler (P_ReservoirDist) for every n <= 4k+1, k in {1,2} (and k = 3 in the thorough tier, with gcd-normalised weights): "
                     "the table is explored breadth first over the real sampler's OWN states (every state reached, every plain-phase outcome j, every one of the 4k+1 equiprobable cells of the unit draw at the phase switch), so it does not depend on which slot or item the code picks; "
-                    "if the code asks for randomness the script does not provide, the table stops there (drift, no verdict) and the measured clause decides: inclusion counts over 3000 seeded ChaCha runs for 17 (33 thorough) (k, n) pairs, 6 sigma (P_ReservoirFreq; gap regime with the documented 1/k-order bias allowed); "
+                    "if the code asks for randomness the script does not provide, the table stops there (drift, no verdict) and the measured clause decides: inclusion counts over 3000 (18000 for k <= 5) seeded ChaCha runs for 17 (33 thorough) (k, n) pairs, 6 sigma (P_ReservoirFreq; gap regime with the documented 1/k-order bias allowed); "
                     "gap phase: scripted unit values on a dyadic grid, the next accepted index must be base + g with GapOK; non-trivial = tagged transitions",
             "assumptions": ["uniformity of the RNG (rand's gen_range maps a uniform lattice of words to equiprobable outcomes; self-tested)", "the quantitative bias of gap sampling for n >> 4k is not decided (statement: 'of relative order 1/k')"]},
     "C16": {"run": run_td, "level": "model_checking",
@@ -1376,7 +1376,7 @@ PROPS = {
             "assumptions": ["allocation is outside what a TLA+ state machine models: the spec contributes the bound (HeapModel) and the container-size invariants, the allocator the measurement",
                             "constant factors: 3/2 for packed tables, 4 for Vec/HashMap-backed structures, + 4 KiB"]},
     "C07": {"run": run_C07, "level": "exploration",
-            "rule": "every point of the TLA+ parameter plane Gen_Sizing (n in {1,2,3,7,50,1000[,20000]} x p = a/c incl. p > 1/2, 1 - 2^-j, 2^-j) constructed with with_properties / with_properties_4 / _8, "
+            "rule": "every point of the TLA+ parameter plane Gen_Sizing (n in {1,2,3,7,50,1000[,20000]} x p = a/c incl. p > 1/2, 1 - 2^-j, 2^-j; n in {1,50} x p = 2^-31 .. 2^-70 given by the exponent, around the 64-bit fingerprint limit) constructed with with_properties / with_properties_4 / _8, "
                     "n distinct inserts, queries, len(); judged by P_Sizing: k >= 1, m >= 1, no panic, no Full, no false negative, 2b/2^l <= p, capacity >= n, and gross measured clauses with a 6-sigma margin on 20 000 probes "
                     "(Bloom false positives <= 1.3 p for n >= 1000, cuckoo <= p, Bloom len() within 10% for n >= 1000 at <= 50% occupancy), plus the textbook Bloom rate (1 - e^(-kn/m))^k of the constructor's own k and m against 1.3 p for n >= 50 (computed by the harness, compared by TLC in milli-nats); the quotient-filter rate clause is the exact-set invariant of C13 (re-run here); "
                     "every point is a distinct configuration",
